@@ -117,7 +117,8 @@ func NewKeywordCaseRule(preferredStyle CaseStyle) *KeywordCaseRule {
 func (r *KeywordCaseRule) Check(ctx *linter.Context) ([]linter.Violation, error) {
 	violations := []linter.Violation{}
 
-	for lineNum, line := range ctx.Lines {
+	// analysed with literal, quoted-identifier (backticks included) and comment content masked
+	for lineNum, line := range linter.MaskedLines(ctx.SQL) {
 		// Tokenize the line to find keywords
 		words := tokenizeLine(line)
 
@@ -144,7 +145,7 @@ func (r *KeywordCaseRule) Check(ctx *linter.Context) ([]linter.Violation, error)
 						Severity:   r.Severity(),
 						Message:    "Keyword '" + word.text + "' should be " + string(r.preferredStyle) + "case: '" + expectedCase + "'",
 						Location:   models.Location{Line: lineNum + 1, Column: word.column},
-						Line:       line,
+						Line:       ctx.Lines[lineNum],
 						Suggestion: "Change '" + word.text + "' to '" + expectedCase + "'",
 						CanAutoFix: true,
 					})
@@ -240,13 +241,19 @@ func tokenizeLine(line string) []wordToken {
 //
 // Returns the fixed content with all keywords in preferred case, and nil error.
 func (r *KeywordCaseRule) Fix(content string, violations []linter.Violation) (string, error) {
+	// Literal, quoted-identifier and comment content is masked so that it is left alone
+	// even where it spans several lines.
+	content, restore, ok := linter.MaskForRewrite(content)
+	if !ok {
+		return content, nil
+	}
 	lines := strings.Split(content, "\n")
 
 	for i, line := range lines {
 		lines[i] = r.fixLine(line)
 	}
 
-	return strings.Join(lines, "\n"), nil
+	return restore(strings.Join(lines, "\n")), nil
 }
 
 // fixLine fixes keyword case in a single line.
